@@ -176,6 +176,9 @@ func (p *astVisitor) Visit(node ast.Node) (w ast.Visitor) {
 			ast.Walk(p, val)
 		}
 	case *ast.TypeSpec:
+		if v.TypeParams != nil { // constraints may name imported packages
+			ast.Walk(p, v.TypeParams)
+		}
 		ast.Walk(p, v.Type)
 	case *ast.BranchStmt:
 	case *ast.LabeledStmt:
